@@ -1986,7 +1986,8 @@ def shards(tier, seed):
         mixed += [sh for sh in grp if sh is not None]
     r = seed % max(1, len(mixed))
     small = [sh for sh in light if sh["kind"] == "tree"]
-    return small + mixed[r:] + mixed[:r] + [sh for sh in light if sh["kind"] != "tree"]
+    slow = [sh for sh in light if sh["kind"] == "deep"]      # few cases, but single ones take minutes (thorough)
+    return slow + small + mixed[r:] + mixed[:r] + [sh for sh in light if sh["kind"] not in ("tree", "deep")]
 
 
 def run_shard(shard, ctx):
